@@ -299,11 +299,15 @@ class Dimension:
         symbol: Optional[str] = None,
     ) -> "Dimension":
         key = exponents
+        # the name registry is read before the intern table: a dimension is interned
+        # before it is named, so whatever holds the name is then also found by key,
+        # even while another thread is in the middle of the same declaration
+        named = cls._by_name.get(name) if name else None
         existing = cls._known.get(key)
 
         # a name belongs to one dimension; check before anything is interned so
         # that a refused declaration changes nothing
-        if name and cls._by_name.get(name, existing) is not existing:
+        if named is not None and named is not existing:
             raise ValueError(f"A dimension named {name} is already defined")
 
         if existing is not None:
@@ -666,21 +670,27 @@ class Prefix:
         symbol: Optional[str] = None,
     ) -> "Prefix":
         key = (base, exponent)
+        # the name and symbol registries are read before the intern table: a prefix is
+        # interned before it is named, so whatever holds the name is then also found by
+        # key, even while another thread is in the middle of the same declaration
+        named = cls._by_name.get(name) if name else None
+        symbolized = cls._by_symbol.get(symbol) if symbol else None
         existing = cls._known.get(key)
         if base != 0 and exponent == 0:
             existing = IdentityPrefix
 
         # a name or symbol belongs to one prefix, and a prefix has one name and symbol;
         # check before anything is interned so that a refused declaration changes nothing
+        # (an interned prefix that another thread is still initialising has neither yet)
         if name:
-            if cls._by_name.get(name, existing) is not existing:
+            if named is not None and named is not existing:
                 raise ValueError(f"A prefix named {name} is already defined")
-            if existing is not None and existing.name not in (None, name):
+            if getattr(existing, "name", None) not in (None, name):
                 raise ValueError(f"{existing!r} is already named {existing.name}")
         if symbol:
-            if cls._by_symbol.get(symbol, existing) is not existing:
+            if symbolized is not None and symbolized is not existing:
                 raise ValueError(f"A prefix with symbol {symbol} is already defined")
-            if existing is not None and existing.symbol not in (None, symbol):
+            if getattr(existing, "symbol", None) not in (None, symbol):
                 raise ValueError(f"{existing!r} already has the symbol {existing.symbol}")
 
         if existing is not None:
